@@ -487,6 +487,9 @@ func JSONRoundTrip(v any) error {
 // Show renders a value for samples / replay files: JSON when possible,
 // otherwise %#v.
 func Show(v any) any {
+	if !withinBudget(v, 20000) {
+		return "<value too large to render>"
+	}
 	probs := PlainWalk(v)
 	if len(probs) == 0 {
 		if _, err := json.Marshal(v); err == nil {
@@ -504,4 +507,43 @@ func Hash64(s string) uint64 {
 		h *= 1099511628211
 	}
 	return h
+}
+
+// withinBudget reports whether a value has at most n nodes (maps and slices
+// are followed; shared substructure counts every time it is reached, so a DAG
+// or a cycle exhausts the budget quickly instead of looping).
+func withinBudget(v any, n int) bool {
+	budget := n
+	var walk func(rv reflect.Value, depth int) bool
+	walk = func(rv reflect.Value, depth int) bool {
+		budget--
+		if budget < 0 || depth > 200 {
+			return false
+		}
+		if !rv.IsValid() {
+			return true
+		}
+		switch rv.Kind() {
+		case reflect.Interface, reflect.Ptr:
+			if rv.IsNil() {
+				return true
+			}
+			return walk(rv.Elem(), depth+1)
+		case reflect.Map:
+			it := rv.MapRange()
+			for it.Next() {
+				if !walk(it.Value(), depth+1) {
+					return false
+				}
+			}
+		case reflect.Slice, reflect.Array:
+			for i := 0; i < rv.Len(); i++ {
+				if !walk(rv.Index(i), depth+1) {
+					return false
+				}
+			}
+		}
+		return true
+	}
+	return walk(reflect.ValueOf(v), 0)
 }
